@@ -147,6 +147,30 @@ def model_only(sh, rng, n):
                     r.type = '<' if r.type == '>' else '>'
                     twin.refs[pos[id(r)]].type = r.type
                     flips += 1
+        if rng.random() < 0.5 and len(db.tables) >= 3:
+            # the column that holds a foreign key moves to another table (delete_column + add_column): from now on that
+            # table holds the key.  Same edit on the twin that was never rendered.
+            cand = [r for r in db.refs if r.inline and len(r.col1) == 1 and len(r.col2) == 1 and r.col1[0].table is not r.col2[0].table]
+            if cand:
+                r = rng.choice(cand)
+                side = rng.choice([1, 2])
+                col = (r.col1 if side == 1 else r.col2)[0]
+                src = col.table
+                other = (r.col2 if side == 1 else r.col1)[0].table
+                dests = [t for t in db.tables if t is not src and t is not other]
+                if dests and len(src.columns) > 1 and not any(col in ix.subjects for ix in src.indexes):
+                    dst = rng.choice(dests)
+                    ti_src, ti_dst = db.tables.index(src), db.tables.index(dst)
+                    ci = src.columns.index(col)
+                    used_elsewhere = [q for q in db.refs if q is not r and (col in q.col1 or col in q.col2)]
+                    if not used_elsewhere and all(c_.name != col.name for c_ in dst.columns):
+                        src.delete_column(col)
+                        dst.add_column(col)
+                        tcol = twin.tables[ti_src].columns[ci]
+                        twin.tables[ti_src].delete_column(tcol)
+                        twin.tables[ti_dst].add_column(tcol)
+                        flips += 1
+                        sh.count('obs.fk_column_moved')
         try:
             after = table_order(db)
             from pv.clone import clone
@@ -225,6 +249,11 @@ def run_shard(spec, tier, seed, budget_s):
     # ---- graph workload
     rng = random.Random(f'{seed}-graphs-{i}')
     model_only(sh, random.Random(f'{seed}-modelonly-{i}'), {'quick': 80, 'thorough': 1000}[tier])
+    # ---- a large schema (more than a thousand tables): counts and positions of a different magnitude
+    if i < {'quick': 4, 'thorough': 16}[tier]:
+        big, bedges = gen.graph_doc(rng, ['tree', 'layered', 'chain_rev', 'tree'][i % 4], rng.randint(1001, 1400), case_twins=False)
+        check(sh, big, bedges, apibuild.build(big), 'api', 'large', acyclic=True)
+        sh.count('obs.large_schemas')
     k = 0
     target = {'quick': 400, 'thorough': 5000}[tier]
     while k < target and not sh.out_of_time():
